@@ -107,8 +107,9 @@ def solve_scalar(
         else:
             denominator = shifted_H_jj - shifted_H_ii
         # Denominators often simplify because linear powers of bosonic operators cancel.
+        # An identically vanishing denominator has no terms at all.
         denominator = sympy.collect_const(
-            next(iter((denominator.terms.values()))).simplify()
+            next(iter((denominator.terms.values())), sympy.S.Zero).simplify()
         ).doit()  # Not sure why doit is needed here, but it is.
         if denominator == 0:
             if coeff.simplify() == 0:
